@@ -345,6 +345,7 @@ def register(name, fn):
 def main():
     sys.modules['impl_py'] = sys.modules['__main__']
     import impl_py_engine  # noqa: F401  (registers the engine-level ops)
+    import impl_py_translate  # noqa: F401  (registers the ops of the query-translation layer)
     out = sys.stdout
     for line in sys.stdin:
         line = line.rstrip('\n')
